@@ -428,7 +428,7 @@ def run(tier):
         "rule": "rule x context: each rule-breaking construct (unknown name; use of a name outside the block / arm / comprehension / closure / function that binds it (15 scope rules); wrong type in annotated let / reassignment / return / argument / field assignment / constructor "
         "field / const / default; reassigning, compound-assigning or field-assigning an immutable binding incl. params and outer bindings; `?` on non-Result / incompatible error; "
         "non-exhaustive match over enum/Option/Result incl. foreign-constructor, duplicate and guard-only arms; constructor with missing/duplicate/unknown field; trait adoption "
-        "without method / @requires field) in every statement, function and expression context (level 2), nested two deep and after another construct (level 3); every level-1 rule also with the offending function living in an imported module (alone, and in a diamond: types in one imported module, functions in another, the entry importing both in either order), judged on the real "
+        "without method / @requires field) in every statement, function and expression context (level 2), nested two deep and after another construct (level 3); every level-1 rule also with the offending function living in an imported module (alone, and in a diamond: types in one imported module, functions in another, the entry importing both in either order; and with the traits in a module of their own that the offending module imports by name), judged on the real "
         "CLI's exit status and the file:line it reports; "
         "non-trivial = rule x context pair whose benign twin is accepted and whose offending variant is rejected with an error inside the construct",
         "samples": [{"sig": list(c[0]), "construct": c[1].encode()[c[2][0] : c[2][1]].decode()} for c in common.pick_samples(cases)],
@@ -491,6 +491,18 @@ def dependency_part(out, incan=None, skip=()):
         if shape == "single":
             open(os.path.join(d, "rulelib.incn"), "w", encoding="utf-8").write(lib)
             open(os.path.join(d, "main.incn"), "w", encoding="utf-8").write("from rulelib import takes_int\n\n\ndef main() -> None:\n    println(takes_int(1))\n")
+        elif shape == "traits_apart":
+            # the traits live in ruletraits.incn and are imported BY NAME by the module that holds everything else (the
+            # importing module's own import statement meets a name the checker already knows as a trait)
+            blocks = split_blocks(lib)
+            is_trait = lambda b: re.search(r"^pub trait ", b, re.M)
+            traits = [b for b in blocks if is_trait(b)]
+            rest = [b for b in blocks if not is_trait(b)]
+            tnames = re.findall(r"^pub trait (\w+)", "\n".join(traits), re.M)
+            open(os.path.join(d, "ruletraits.incn"), "w", encoding="utf-8").write("\n\n\n".join(traits) + "\n")
+            lib = "from ruletraits import " + ", ".join(tnames) + "\n\n\n" + "\n\n\n".join(rest) + "\n"
+            open(os.path.join(d, "rulelib.incn"), "w", encoding="utf-8").write(lib)
+            open(os.path.join(d, "main.incn"), "w", encoding="utf-8").write("from rulelib import takes_int\n\n\ndef main() -> None:\n    println(takes_int(1))\n")
         else:
             # diamond: the types live in ruletypes.incn, the functions (incl. the offending one) in rulelib.incn, which imports
             # the types; the entry file imports both, the function module first or last
@@ -507,10 +519,10 @@ def dependency_part(out, incan=None, skip=()):
                 lines.reverse()
             open(os.path.join(d, "main.incn"), "w", encoding="utf-8").write("\n".join(lines) + "\n\n\ndef main() -> None:\n    println(takes_int(1))\n")
         p = subprocess.run([incan, "--no-banner", "--color", "never", "--check", "main.incn"], cwd=d, env=env, capture_output=True, text=True, timeout=60)
-        files = {f: open(os.path.join(d, f), encoding="utf-8").read() for f in ("rulelib.incn", "ruletypes.incn") if os.path.exists(os.path.join(d, f))}
+        files = {f: open(os.path.join(d, f), encoding="utf-8").read() for f in ("rulelib.incn", "ruletypes.incn", "ruletraits.incn") if os.path.exists(os.path.join(d, f))}
         return p.returncode, re.sub(r"\x1b\[[0-9;]*m", "", p.stdout + p.stderr), files
 
-    shapes = ("single", "diamond_functions_first", "diamond_types_first")
+    shapes = ("single", "diamond_functions_first", "diamond_types_first", "traits_apart")
     base_cases = cases
     cases = [(sig + (f"shape:{sh}",), bad, rng, good) for (sig, bad, rng, good) in base_cases for sh in shapes if sh == "single" or L not in PRELUDE]
     jobs = []
